@@ -6,8 +6,13 @@
   `-> fail` : a callee (or the VM: insufficient funds) rejected the transaction — the model cannot
   know, the result is `err`; `-> ?` : the proxy's own guard rejected it — the model must reject it
   too (it is run with empty responses).
+
+  `<op>Ob <caller> <original caller> <rest>` (op = exit / claim / enterL / enterW) is `<op> <caller> <rest>`
+  with the endpoint's optional original-caller argument supplied; the only account on the proxy's SC
+  whitelist is the manager contract, account `users + 1` of the world header (`Core/ProxyDexWho`).
 -/
 import MxModel.Core.ProxyDex
+import MxModel.Core.ProxyDexWho
 import MxModel.Core.ProxyDexCheck
 import MxModel.Driver.Proto
 
@@ -129,14 +134,52 @@ def showNewF (s : St) (n : Nat) : String :=
   | some r => s!"{n}:{r.farm},{r.fn},{r.fa},{kindNum r.kind},{r.pn},{r.pa}"
   | none => "-"
 
-def showOut (s : St) (o : Out) : String :=
+/-- `to=`: the account that pays and receives; `ea=`: the account whose energy entry the proxy
+    reduced (only when it did); both `-` for operations that are not calls of the proxy -/
+def showOut (s : St) (oa : OutA) (isCall : Bool) : String :=
+  let o := oa.out
+  let to := if isCall then toString oa.to else "-"
+  let ea := if isCall && o.eDed ≠ 0 then toString oa.eAcc else "-"
   s!"b={o.base} l={showPair o.locked} o={o.other} w={showPair o.wOut} f={showPair o.fOut} " ++
-  s!"r={showPair o.rew} bl={showPair o.burned} e={o.eDed} nw={showNewW s o.newW} nf={showNewF s o.newF}"
+  s!"r={showPair o.rew} bl={showPair o.burned} e={o.eDed} to={to} ea={ea} " ++
+  s!"nw={showNewW s o.newW} nf={showNewF s o.newF}"
 
-def showState (s : St) (bound : Nat) : String :=
+def isCall : Op → Bool
+  | .lock _ => false
+  | .advance _ => false
+  | .noop => false
+  | _ => true
+
+def showInts (b : Nat → Int) (bound : Nat) : String :=
+  let l := (List.range (bound + 1)).filterMap fun i => if b i = 0 then none else some s!"{i}:{b i}"
+  if l.isEmpty then "-" else ",".intercalate l
+
+def obBase : String → Option String
+  | "exitOb" => some "exit"
+  | "claimOb" => some "claim"
+  | "enterLOb" => some "enterL"
+  | "enterWOb" => some "enterW"
+  | _ => none
+
+/-- strip the original caller of an `…Ob` op: `(plain op words, caller, original caller)` -/
+def splitWho (a : List String) : List String × Nat × Option Nat :=
+  match a with
+  | op :: c :: u :: rest =>
+      match obBase op with
+      | some base => (base :: c :: rest, c.toNat?.getD 0, some (u.toNat?.getD 0))
+      | none => (a, c.toNat?.getD 0, none)
+  | [_, c] => (a, c.toNat?.getD 0, none)
+  | _ => (a, 0, none)
+
+def parseCall (a r : List String) (guess : Bool) : Option Call :=
+  let (a', c, u) := splitWho a
+  (parseOp a' r guess).map fun op => ⟨c, u, op⟩
+
+def showState (a : StA) (bound nacc : Nat) : String :=
+  let s := a.s
   s!"now={s.now} lp={s.lp} base=0 other=0 lk={showBag s.lk bound} fl={showBag (s.hf 0) bound} " ++
   s!"fw={showBag (s.hf 1) bound} hw={showIdx s.wl (fun r => r.held + r.orph)} " ++
-  s!"cw={showIdx s.wl (·.circ)} cf={showIdx s.wf (·.circ)} net={s.net}"
+  s!"cw={showIdx s.wl (·.circ)} cf={showIdx s.wf (·.circ)} net={s.net} ed={showInts a.eBy nacc}"
 
 /-- largest number that appears as a nonce (`n:` prefix) anywhere in the line -/
 def maxNonce (ws : List String) : Nat :=
@@ -150,10 +193,14 @@ def maxNonce (ws : List String) : Nat :=
       | _ => m) m) 0
 
 structure DSt where
-  s : St
+  a : StA
   bound : Nat
+  /-- number of accounts (plain users + the manager) -/
+  nacc : Nat
 
-def initOf (ws : List String) : DSt := ⟨init ((kvNat ws "epoch").getD 1), 0⟩
+def initOf (ws : List String) : DSt :=
+  let users := (kvNat ws "users").getD 3
+  ⟨initA ((kvNat ws "epoch").getD 1) (fun i => i == users + 1), 0, users + 1⟩
 
 def handle (d : DSt) (line : String) : DSt × Option String :=
   match words line with
@@ -165,18 +212,22 @@ def handle (d : DSt) (line : String) : DSt × Option String :=
       match r with
       | ["fail"] => (d, some s!"R {n} err")
       | ["?"] =>
-          match (parseOp a [] true).bind (step d.s) with
+          match (parseCall a [] true).bind (stepA d.a) with
           | some _ => (d, some s!"R {n} ok ? (the model accepts what the proxy's own guard rejected)")
           | none => (d, some s!"R {n} err")
       | _ =>
           -- callee facts of Props/C16Run (FarmExact, FactoryMergeOK) evaluated on the recorded answer
-          let bad := match parseOp a r false with
-            | some op => (step d.s op).isSome && !(calleeOKb d.s op)
+          let bad := match parseCall a r false with
+            | some c => (stepA d.a c).isSome && !(calleeOKb d.a.s c.op)
             | none => false
-          match (parseOp a r false).bind (step d.s) with
-          | some (s', o) =>
-              if bad then ({ d with s := s' }, some s!"R {n} ok CALLEE-FACT-VIOLATED (FarmExact / FactoryMergeOK of Props/C16Run)")
-              else ({ d with s := s' }, some s!"R {n} ok {showOut s' o} | {showState s' bound}")
+          match parseCall a r false with
+          | some c =>
+              match stepA d.a c with
+              | some (a', o) =>
+                  if bad then ({ d with a := a' }, some s!"R {n} ok CALLEE-FACT-VIOLATED (FarmExact / FactoryMergeOK of Props/C16Run)")
+                  else ({ d with a := a' },
+                        some s!"R {n} ok {showOut a'.s o (isCall c.op)} | {showState a' bound d.nacc}")
+              | none => (d, some s!"R {n} err")
           | none => (d, some s!"R {n} err")
   | "Q" :: n :: _ => (d, some s!"V {n} err")
   | _ => (d, none)
